@@ -1036,12 +1036,20 @@ std::string sqf::parser::preprocessor::impl_default::instance::parse_file(::sqf:
             {
                 if (c == '#' && was_new_line)
                 {
+                    auto line_before = fileinfo.line;
                     auto res = parse_ppinstruction(runtime, fileinfo);
                     if (m_errflag)
                     {
                         return res;
                     }
                     sstream << res;
+                    if (res == "\n")
+                    { // a directive continued over several lines (backslash-newline) stands for as many output lines
+                        for (auto consumed = line_before + 1; consumed < fileinfo.line; ++consumed)
+                        {
+                            sstream << '\n';
+                        }
+                    }
                     break;
                 }
             }
